@@ -10,6 +10,7 @@ fn main() {
     entries.extend(cat_t7::entries());
     entries.sort_by_key(|e| e.id);
     let cat = mc_desc::catalogue::build(mc_desc::catalogue::Tier::Thorough);
+    mc_core::names::set_wide_probe(cat_wide::wide_names_probe);
     assert_eq!(entries.len(), cat.roots.len());
     std::process::exit(mc_core::main_with(entries, cat));
 }
